@@ -202,6 +202,10 @@ func (s *icmpDriver) handleProbeLayers(parser *packets.FrameParser) (*common.Pro
 				IsDest: false,
 			}, nil
 		case layers.ICMPv4TypeEchoReply:
+			if ipPair.SrcAddr.Compare(s.params.Target) != 0 || ipPair.DstAddr.Compare(s.localAddr) != 0 {
+				log.Tracef("icmpDriver ignored echo reply on another flow: %s -> %s", ipPair.SrcAddr, ipPair.DstAddr)
+				return nil, common.ErrPacketDidNotMatchTraceroute
+			}
 			if parser.ICMP4.Id != s.echoID {
 				return nil, &common.BadPacketError{Err: fmt.Errorf("mismatched echo ID")}
 			}
@@ -263,6 +267,10 @@ func (s *icmpDriver) handleProbeLayers(parser *packets.FrameParser) (*common.Pro
 				IsDest: false,
 			}, nil
 		case layers.ICMPv6TypeEchoReply:
+			if ipPair.SrcAddr.Compare(s.params.Target) != 0 || ipPair.DstAddr.Compare(s.localAddr) != 0 {
+				log.Tracef("icmpDriver ignored echo reply on another flow: %s -> %s", ipPair.SrcAddr, ipPair.DstAddr)
+				return nil, common.ErrPacketDidNotMatchTraceroute
+			}
 			payload := parser.ICMP6.Payload
 			if len(payload) < 4 {
 				return nil, errPacketDidNotMatchTraceroute
